@@ -30,6 +30,12 @@ def gen_diagram(ints, with_callables=False):
     if t.pick(3) == 0:
         D['components'].append({'name': 'Other', 'parent': ['pkg', 0]})
         outside.append(['comp', 1])
+    if t.pick(3) == 0:
+        # a component nested in the component (directly or through one of its packages): what it holds is inside both
+        D['components'].append({'name': 'Inner', 'parent': t.choice([['comp', 0], ['pkg', 1]])})
+        ci = len(D['components']) - 1
+        D['packages'].append({'name': 'InnerPkg', 'parent': ['comp', ci]})
+        homes += [['pkg', len(D['packages']) - 1], ['comp', ci]]
     # data types
     tnames = []
     for k in range(t.pick(4)):
